@@ -64,13 +64,18 @@ pub fn check_frame(c: &FrameCase, st: &mut Stats) -> Result<(), String> {
     let mut want_nl = want.clone();
     want_nl.extend_from_slice(b"\r\n");
 
-    for owned in [true, false] {
-        let how = if owned { "owned" } else { "borrowed" };
+    for way in 0..3u8 {
+        let how = ["owned", "borrowed", "owned with spare capacity"][way as usize];
         let r = catch(|| -> Result<(), String> {
-            let data = if owned {
-                Data::try_new(c.data.clone())
-            } else {
-                Data::try_new(&c.data[..])
+            let data = match way {
+                0 => Data::try_new(c.data.clone()),
+                1 => Data::try_new(&c.data[..]),
+                _ => {
+                    // a vector that was grown, not sized exactly (len < capacity)
+                    let mut v: Vec<u8> = Vec::with_capacity(c.data.len() + 9);
+                    v.extend_from_slice(&c.data);
+                    Data::try_new(v)
+                }
             }
             .map_err(|e| format!("Data::try_new rejected a {}-byte block ({how}): {e}", c.data.len()))?;
             if data.get().as_ref() != &c.data[..] {
@@ -163,6 +168,39 @@ pub fn check_frame(c: &FrameCase, st: &mut Stats) -> Result<(), String> {
                     }
                 }
             }
+            // copies made through the Clone trait (clone and clone_from into frames / blocks that held longer, shorter,
+            // borrowed and empty data before) equal their source and encode like it
+            let longer: Vec<u8> = (0..(c.data.len() + 7).min(255)).map(|i| 0xA0 ^ i as u8).collect();
+            let shorter: Vec<u8> = c.data[..c.data.len() / 2].to_vec();
+            let dests: [(&str, Frame<'_>); 4] = [
+                ("a frame with longer owned data", Frame::new(Address(0x5A5A), MsgType(0x77), Data::try_new(longer.clone()).unwrap())),
+                ("a frame with shorter owned data", Frame::new(Address(1), MsgType(2), Data::try_new(shorter.clone()).unwrap())),
+                ("a frame with borrowed data", Frame::new(Address(3), MsgType(4), Data::try_new(&longer[..]).unwrap())),
+                ("a frame with empty data", Frame::new(Address(5), MsgType(6), Data::try_new(vec![]).unwrap())),
+            ];
+            for (what, mut dest) in dests {
+                dest.clone_from(&frame);
+                if dest != frame || dest.to_bytes() != want || dest.data().as_ref() != &c.data[..] {
+                    return Err(format!(
+                        "clone_from of the frame ({how}) into {what} gives {} ; the source encodes as {}",
+                        show_bytes(&dest.to_bytes()),
+                        show_bytes(&want)
+                    ));
+                }
+                let mut block = Data::try_new(longer.clone()).unwrap();
+                block.clone_from(&frame.clone().into_data());
+                if block.get().as_ref() != &c.data[..] {
+                    return Err(format!("clone_from of the data block ({how}) into a longer block gives {} bytes, the source has {}", block.get().len(), c.data.len()));
+                }
+            }
+            let mut list: Vec<Frame<'_>> = vec![Frame::new(Address(9), MsgType(9), Data::try_new(longer.clone()).unwrap()); 2];
+            list.clone_from(&vec![frame.clone(), frame.clone(), frame.clone()]);
+            if list.iter().any(|f| f.to_bytes() != want) {
+                return Err(format!("Vec<Frame>::clone_from ({how}) does not reproduce the frames"));
+            }
+            if frame.clone() != frame || frame.clone().to_bytes() != want {
+                return Err(format!("clone() of a frame ({how}) differs from its source"));
+            }
             Ok(())
         });
         match r {
@@ -188,6 +226,53 @@ pub fn check_frame(c: &FrameCase, st: &mut Stats) -> Result<(), String> {
         st.sample(json!({"addr": c.addr, "type": c.ty, "data_len": c.data.len(), "wire": String::from_utf8_lossy(&want)}));
     }
     Ok(())
+}
+
+// --- conversions from &'static [u8; N]: use `Into<Data>` where the library offers it for that N, else nothing -----------
+struct ArrayProbe<T>(T);
+trait ViaInto {
+    fn convert(&self) -> Option<Result<usize, String>>;
+}
+impl<T: Copy + Into<Data<'static>> + std::panic::UnwindSafe + std::panic::RefUnwindSafe> ViaInto for ArrayProbe<T> {
+    fn convert(&self) -> Option<Result<usize, String>> {
+        let v = self.0;
+        Some(catch(move || {
+            let d: Data<'static> = v.into();
+            d.get().len()
+        }))
+    }
+}
+trait NoConversion {
+    fn convert(&self) -> Option<Result<usize, String>>;
+}
+impl<T> NoConversion for &ArrayProbe<T> {
+    fn convert(&self) -> Option<Result<usize, String>> {
+        None
+    }
+}
+
+/// (array length, None = no conversion offered / Some(Ok(block length)) / Some(Err(panic)))
+fn static_array_conversions() -> Vec<(usize, Option<Result<usize, String>>)> {
+    static A0: [u8; 0] = [];
+    static A1: [u8; 1] = [7; 1];
+    static A4: [u8; 4] = [7; 4];
+    static A5: [u8; 5] = [7; 5];
+    static A16: [u8; 16] = [7; 16];
+    static A255: [u8; 255] = [7; 255];
+    static A256: [u8; 256] = [7; 256];
+    static A300: [u8; 300] = [7; 300];
+    static A65536: [u8; 65536] = [7; 65536];
+    vec![
+        (0, (&ArrayProbe(&A0)).convert()),
+        (1, (&ArrayProbe(&A1)).convert()),
+        (4, (&ArrayProbe(&A4)).convert()),
+        (5, (&ArrayProbe(&A5)).convert()),
+        (16, (&ArrayProbe(&A16)).convert()),
+        (255, (&ArrayProbe(&A255)).convert()),
+        (256, (&ArrayProbe(&A256)).convert()),
+        (300, (&ArrayProbe(&A300)).convert()),
+        (65536, (&ArrayProbe(&A65536)).convert()),
+    ]
 }
 
 #[derive(Serialize, Deserialize, Debug, Clone)]
@@ -345,6 +430,47 @@ pub fn run(ctx: &Ctx) {
         |c, st| check_try_new(c, st),
     );
 
+    // conversions from static arrays into a data block: whatever array lengths the library offers a conversion for
+    // (probed at compile time), a block of more than 255 bytes must not come out
+    {
+        let mut st = Stats::new();
+        let mut offered = vec![];
+        for (n, r) in static_array_conversions() {
+            st.eval();
+            match r {
+                None => {}
+                Some(Ok(len)) => {
+                    offered.push(n);
+                    if len > 255 || len != n {
+                        ctx.fail("static-array-conversions", json!({"array_len": n}), format!("converting a static array of {n} bytes gives a data block of {len} bytes (more than 255 can never be placed in a frame; the block must hold the array)"));
+                    }
+                }
+                Some(Err(_panic)) => offered.push(n), // refusing by panic is a refusal
+            }
+        }
+        st.nontrivial_enumerated(offered.len() as u64);
+        ctx.merge("static-array-conversions", st);
+        ctx.part_done("static-array-conversions", true, json!({"array_lengths_probed": [0, 1, 4, 5, 16, 255, 256, 300, 65536], "conversion_offered_for": offered}));
+    }
+
+    // the codec used from the destructor of a thread-local value while a thread shuts down (a connection object that
+    // says goodbye when its thread ends): it must work there like anywhere else
+    par_range(ctx, "codec-during-thread-teardown", 24, |i, st| {
+        let fc = FrameCase { addr: 0x0100 + i as u16, ty: (i % 7) as u8, data: (0..(i as usize * 11) % 256).map(|k| k as u8 ^ 0x5C).collect() };
+        let (a, b) = (fc.clone(), fc.clone());
+        crate::engine::in_thread_teardown(
+            move || {
+                let _ = check_frame(&a, &mut Stats::new());
+            },
+            move || check_frame(&b, &mut Stats::new()),
+        )
+        .map_err(|m| (serde_json::to_value(&fc).unwrap(), format!("inside a thread-local destructor at thread exit: {m}")))?;
+        st.eval();
+        st.nontrivial_enumerated(1);
+        Ok(())
+    });
+    ctx.part_done("codec-during-thread-teardown", true, json!("24 frames encoded and decoded inside a thread-local destructor at thread exit, after the same thread used the codec normally"));
+
     // generated frames ------------------------------------------------------------------
     run_generated(ctx, "frame", ctx.tier.pick(1_000_000, 10_000_000), frame_strategy, |c, st| check_frame(c, st));
 }
@@ -353,6 +479,26 @@ pub fn replay(part: &str, case: &Value) -> Result<(), String> {
     let mut st = Stats::new();
     match part {
         "oversize-lines" => Ok(()),
+        "static-array-conversions" => {
+            for (n, r) in static_array_conversions() {
+                if let Some(Ok(len)) = r {
+                    if len > 255 || len != n {
+                        return Err(format!("converting a static array of {n} bytes gives a data block of {len} bytes"));
+                    }
+                }
+            }
+            Ok(())
+        }
+        "codec-during-thread-teardown" => {
+            let c: FrameCase = serde_json::from_value(case.clone()).map_err(|e| format!("bad case: {e}"))?;
+            let (a, b) = (c.clone(), c);
+            crate::engine::in_thread_teardown(
+                move || {
+                    let _ = check_frame(&a, &mut Stats::new());
+                },
+                move || check_frame(&b, &mut Stats::new()),
+            )
+        }
         "try_new-huge" => {
             let len = case.get("len").and_then(|v| v.as_u64()).ok_or("bad case")? as usize;
             check_try_new_huge(len, &mut st)
